@@ -30,17 +30,17 @@ func chanRole(v ssa.Value) string {
 				if r := localAliasRole(a); r != "" {
 					return r
 				}
-				return a.Parent().Name() + "." + a.Comment
+				return shortName(a.Parent()) + "." + a.Comment
 			}
 			if fv, ok := u.X.(*ssa.FreeVar); ok {
-				return fv.Parent().Name() + "." + fv.Name()
+				return shortName(fv.Parent()) + "." + fv.Name()
 			}
 		}
 	case *ssa.Field:
 		st := u.X.Type()
 		return structName(st) + "." + st.Underlying().(*types.Struct).Field(u.Field).Name()
 	case *ssa.Parameter:
-		return u.Parent().Name() + "." + u.Name()
+		return shortName(u.Parent()) + "." + u.Name()
 	case *ssa.ChangeType:
 		return chanRole(u.X)
 	}
@@ -406,4 +406,17 @@ func (x *Exec) doGo(st *State, g *ssa.Go) {
 			}
 		}
 	}
+}
+
+
+// shortName: the function's bare name as channel roles use it - of the name its contract is
+// written under when the function was renamed or renumbered (shape.go).
+func shortName(fn *ssa.Function) string {
+	if a, ok := nameAlias[fn]; ok {
+		if i := strings.LastIndex(a, "."); i >= 0 && !strings.HasSuffix(a, "~") {
+			return a[i+1:]
+		}
+		return strings.TrimSuffix(a, "~")
+	}
+	return fn.Name()
 }
